@@ -29,7 +29,10 @@ ASSUMPTIONS = [
 
 
 class RefReject(Exception):
-    pass
+    def __init__(self, symbol, partial=None):
+        Exception.__init__(self, symbol)
+        self.symbol = symbol
+        self.partial = partial   # the RefMol derived so far (nesting statistics)
 
 
 class RefAtom(object):
@@ -248,7 +251,7 @@ def ref_decode(selfies, table, tokens=None):
             p += 1
             c = classify(sym)
             if c is None:
-                raise RefReject(sym)
+                raise RefReject(sym, mol)
             kind = c[0]
             transitions.add((kind, min(state, 9)))
             if kind == "branch":
@@ -281,7 +284,7 @@ def ref_decode(selfies, table, tokens=None):
                 beta, mark, el, iso, chir, h, charge = c[1:]
                 cap = capacity(table, el, charge) - (h or 0)
                 if cap < 0:
-                    raise RefReject(sym)
+                    raise RefReject(sym, mol)
                 mu = 0 if state == 0 else min(beta, state, cap)
                 if state == 0 or mu > 0:
                     a = RefAtom()
